@@ -217,4 +217,22 @@ theorem decodeLib_wire {ps : Props} (h1 : ∀ e ∈ ps, eqByte ∉ e.1) (h2 : (p
   rfl
 
 
+/-- no hypothesis on the dictionary beyond the item limit -/
+theorem decodeLib_encode_general {ps : Props} (h3 : ∀ e ∈ ps, (itemOf e).length ≤ 255) :
+    decodeLib (wireOf (ps.map itemOf)) =
+      (ps.map itemOf).foldl (fun d it => insertNew d (partitionEq it).1 (libVal (partitionEq it).2)) [] := by
+  rw [decodeLib, decodeLoop_wire _ (items_fit h3)]
+
+theorem parse_encode_general {ps : Props} (h3 : ∀ e ∈ ps, (itemOf e).length ≤ 255) :
+    Spec.parse (wireOf (ps.map itemOf)) = some (Spec.firstWins [] ((ps.map itemOf).filterMap Spec.attr)) := by
+  rw [Spec.parse, strings_wire _ (items_fit h3)]; rfl
+
+theorem coerce_asBytesDict (ps : Props) : coerce (asBytesDict ps) = ps := by
+  induction ps with
+  | nil => rfl
+  | cons e r ih =>
+    have ih' : coerce (asBytesDict r) = r := ih
+    obtain ⟨k, v⟩ := e
+    cases v <;> simp_all [coerce, asBytesDict, PyVal.enc]
+
 end Zc.Txt
